@@ -83,6 +83,8 @@ pub struct ContainerSpec {
 
 const BINOPS: [u8; 20] = [0x01, 0x02, 0x03, 0x04, 0x05, 0x06, 0x07, 0x0a, 0x0b, 0x10, 0x11, 0x12, 0x13, 0x14, 0x16, 0x17, 0x18, 0x1a, 0x1b, 0x1c];
 const UNOPS: [u8; 6] = [0x15, 0x19, 0x35, 0x31, 0x40, 0x5c];
+/// EXT*CALL targets (pool indices): the second generated EOF contract (3x), a legacy contract, the caller itself, an EOA, an empty account, a precompile
+const EXT_TARGETS: [u8; 8] = [5, 5, 5, 6, 4, 0, 10, 17];
 const ENVOPS: [u8; 18] = [0x30, 0x32, 0x33, 0x34, 0x36, 0x3a, 0x3d, 0x41, 0x42, 0x43, 0x44, 0x45, 0x46, 0x47, 0x48, 0x4a, 0x59, 0xd2];
 
 struct Asm<'a> {
@@ -448,19 +450,19 @@ impl<'a> Asm<'a> {
                         self.push_small(*val % 3); // value
                         self.push_small(*val % 40); // input size
                         self.push_small(0);
-                        self.push_addr(*target % 14);
+                        self.push_addr(EXT_TARGETS[*target as usize % EXT_TARGETS.len()]);
                         self.op(0xf8, 4, 1);
                     }
                     1 => {
                         self.push_small(*val % 40);
                         self.push_small(0);
-                        self.push_addr(*target % 14);
+                        self.push_addr(EXT_TARGETS[*target as usize % EXT_TARGETS.len()]);
                         self.op(0xf9, 3, 1);
                     }
                     _ => {
                         self.push_small(*val % 40);
                         self.push_small(0);
-                        self.push_addr(*target % 14);
+                        self.push_addr(EXT_TARGETS[*target as usize % EXT_TARGETS.len()]);
                         self.op(0xfb, 3, 1);
                     }
                 }
@@ -1150,6 +1152,101 @@ fn mutate_bytes(base: BoxedStrategy<Vec<u8>>) -> BoxedStrategy<Vec<u8>> {
             v
         })
         .boxed()
+}
+
+
+// ------------------------------------------------------------------------------------------
+// C10 on EOF: a static call into generated EOF code (which EXT*CALLs a second generated EOF contract)
+// ------------------------------------------------------------------------------------------
+
+#[derive(Clone, Debug, Hash, Serialize, Deserialize)]
+pub struct StaticEofCase {
+    pub a: ContainerSpec,
+    pub b: ContainerSpec,
+    pub calldata: Vec<u8>,
+    /// 0: legacy root STATICCALLs A; 1: EOF root EXTSTATICCALLs A
+    pub root: u8,
+}
+
+pub fn c10_eof_case(c: &StaticEofCase) -> CaseResult {
+    let (a, b) = (assemble_container(&c.a, 0), assemble_container(&c.b, 0));
+    let ok = |x: &[u8]| validate_raw_eof_inner(Bytes::copy_from_slice(x), Some(CodeType::ReturnOrStop)).is_ok();
+    if !ok(&a) || !ok(&b) {
+        return Ok(Outcome::trivial().label("container-rejected"));
+    }
+    let spec = SpecId::OSAKA;
+    let sender = pool::eoa(0);
+    let mut world = r::World::new();
+    world.insert(sender, r::Account { balance: vgen::world::eth(1000), nonce: 0, code: vec![], storage: Default::default() });
+    let mut st = std::collections::BTreeMap::new();
+    st.insert(r::U256::from(1), r::U256::from(7));
+    world.insert(pool::contract(0), r::Account { balance: r::U256::from(1000), nonce: 1, code: a, storage: st.clone() });
+    world.insert(pool::contract(1), r::Account { balance: r::U256::from(1000), nonce: 1, code: b, storage: st });
+    world.insert(pool::contract(2), r::Account { balance: r::U256::from(5), nonce: 1, code: hex::decode("600160015560206000f3").unwrap(), storage: Default::default() });
+    // root: forwards its calldata to A inside a static call, then stops
+    let root_code = if c.root % 2 == 0 {
+        // CALLDATASIZE 0 0 CALLDATACOPY; STATICCALL(gas, A, 0, CALLDATASIZE, 0, 0); STOP
+        let mut v = hex::decode("3660006000375f5f365f73").unwrap();
+        v.extend_from_slice(&pool::contract(0));
+        v.extend_from_slice(&hex::decode("5afa5000").unwrap());
+        v
+    } else {
+        // EOF root: CALLDATASIZE PUSH0 PUSH0 CALLDATACOPY; EXTSTATICCALL(A, 0, CALLDATASIZE); POP; STOP
+        let mut code = hex::decode("365f5f37365f73").unwrap();
+        code.extend_from_slice(&pool::contract(0));
+        code.extend_from_slice(&[0xfb, 0x50, 0x00]);
+        let mut v = vec![0xef, 0x00, 0x01, 0x01, 0x00, 0x04, 0x02, 0x00, 0x01];
+        v.extend_from_slice(&(code.len() as u16).to_be_bytes());
+        v.extend_from_slice(&[0x04, 0x00, 0x00, 0x00, 0x00, 0x80, 0x00, 0x03]);
+        v.extend_from_slice(&code);
+        v
+    };
+    world.insert(pool::contract(3), r::Account { balance: r::U256::zero(), nonce: 1, code: root_code, storage: Default::default() });
+    let block = vgen::world::BlockSpec::plain().build();
+    let tx = r::Tx {
+        tx_type: r::TxType::Legacy,
+        caller: sender,
+        to: Some(pool::contract(3)),
+        value: r::U256::zero(),
+        data: c.calldata.clone(),
+        gas_limit: 3_000_000,
+        gas_price: block.base_fee + r::U256::from(1),
+        max_priority_fee: None,
+        nonce: Some(0),
+        chain_id: Some(block.chain_id),
+        access_list: vec![],
+        blob_hashes: vec![],
+        max_fee_per_blob_gas: r::U256::zero(),
+        authorization_list: vec![],
+    };
+    let (res, rec) = run_recorded(spec, &world, make_env(spec, &block, &tx), RecCfg { statics: true, ..RecCfg::default() });
+    let bad: Vec<Failure> = rec.fails.iter().filter(|f| f.sig.starts_with("C10")).cloned().collect();
+    if !bad.is_empty() {
+        return Err(bad.into_iter().map(|f| Failure::new(format!("C10|eof|{}", f.sig.trim_start_matches("C10|")), f.msg)).collect());
+    }
+    if let Err(e) = res {
+        return Err(vec![Failure::new("C10|eof|harness|tx-rejected", e)]);
+    }
+    let mut o = Outcome::new(rec.static_write_depth2 > 0);
+    if rec.static_frames > 0 {
+        o.labels.push("static-frame");
+    }
+    if rec.static_write_attempts > 0 {
+        o.labels.push("write-attempt-in-static");
+    }
+    if rec.static_write_depth2 > 0 {
+        o.labels.push("write-attempt-at-static-depth>=2");
+    }
+    for (op, l) in [(0xf8usize, "ran:EXTCALL"), (0xf9, "ran:EXTDELEGATECALL"), (0xfb, "ran:EXTSTATICCALL"), (0xec, "ran:EOFCREATE")] {
+        if rec.ops[op] > 0 {
+            o.labels.push(l);
+        }
+    }
+    Ok(o)
+}
+
+pub fn static_eof_strategy() -> BoxedStrategy<StaticEofCase> {
+    (container(1, Just(false).boxed()), container(1, Just(false).boxed()), prop::collection::vec(any::<u8>(), 0..40), 0u8..2).prop_map(|(a, b, calldata, root)| StaticEofCase { a, b, calldata, root }).boxed()
 }
 
 pub fn built_strategy() -> BoxedStrategy<BuiltCase> {
